@@ -111,6 +111,14 @@ struct Gen
         for (size_t i = sub.size(); i > 1; --i) std::swap(sub[i - 1], sub[r.below(i)]);
         std::string c = " searchmoves";
         for (auto& m : sub) c += " " + m.uci();
+        // a GUI may name a move more than once (legal, if odd): one restricting list in six is repeated until it is at
+        // least as long as the list of legal moves, so that "as many entries as legal moves" and "no restriction" differ.
+        // Decided by a hash of the list itself, not by a draw, so that every other choice of the run stays what it was.
+        if (sub.size() < ms.size() && fnv1a(FNV_INIT, c.data(), c.size()) % 6 == 0)
+        {
+            std::string one = c.substr(12);
+            for (size_t n = sub.size(); n < ms.size() + 1 && c.size() < 1500; n += sub.size()) c += one;
+        }
         return c;
     }
 
@@ -715,6 +723,43 @@ Script gen_c03_c04(uint64_t seed, const std::string& prop, Rng& r)
             }
         }
     }
+    if (prop == "C04" && mix64(seed, 0xC04F) % 5 == 0)
+    {
+        // corner rooks facing each other on an open edge file with all rights intact: rook takes rook corner to corner
+        // changes the rights of both sides in one move (as does a king taking an unmoved corner rook).  Own stream, so that
+        // the rest of the run is what it was.
+        Rng lr(mix64(seed, 0xC04E));
+        static const char* open_file[] = {"r3k2r/1pp1pppp/8/8/8/8/1PPPPPPP/R3K2R w KQkq - 0 1",  "r3k2r/1pp1pppp/8/8/8/8/1PPPPPPP/R3K2R b KQkq - 0 1",
+                                          "r3k2r/ppp1ppp1/8/8/8/8/PPPPPP2/R3K2R w KQkq - 0 1",   "r3k2r/ppp1ppp1/2n5/8/8/5N2/PPPPPP2/R3K2R b KQkq - 2 9",
+                                          "r3k2r/1pp2pp1/8/8/8/8/1PP2PP1/R3K2R w KQkq - 0 1",    "rnbqk2r/1ppp1ppp/8/8/8/8/1PPP1PPP/R1BQK1NR w KQkq - 0 6",
+                                          "r3k3/1K6/8/8/8/8/8/8 w q - 0 1",                      "4k2r/6K1/8/8/8/8/8/8 w k - 3 40",
+                                          "8/8/8/8/8/8/6k1/4K2R b K - 0 1",                      "8/8/8/8/8/8/1k6/R3K3 b Q - 7 33"};
+        PosSpec p;
+        p.start_fen = open_file[lr.below(10)];
+        p.game = ref::Game(ref::Board(p.start_fen));
+        int plies = int(lr.range(1, 6));
+        s.ops.push_back(send("position fen " + p.start_fen));
+        for (int i = 0; i < plies; ++i)
+        {
+            auto ms = p.game.cur.legal();
+            if (ms.empty()) break;
+            std::vector<ref::RMove> corner;
+            for (auto& m : ms)
+                if ((m.to == 0 || m.to == 7 || m.to == 56 || m.to == 63) && ref::kind_of(p.game.cur.sq[m.to]) == ref::KIND_R) corner.push_back(m);
+            ref::RMove pick = !corner.empty() && lr.chance(0.7) ? corner[lr.below(corner.size())] : ms[lr.below(ms.size())];
+            p.game.push(pick);
+            s.ops.push_back(send("moves " + pick.uci()));
+            s.ops.push_back(simple(OP_AWAIT_IDLE));
+            s.ops.push_back(simple(OP_CHECK, "c04"));
+        }
+        if (!p.game.cur.legal().empty())
+        {
+            g.pos = p;
+            s.ops.push_back(send(p.command()));
+            s.ops.push_back(send("go depth " + std::to_string(lr.range(2, 4))));
+            s.ops.push_back(simple(OP_AWAIT_BEST));
+        }
+    }
     return s;
 }
 
@@ -729,6 +774,85 @@ Script gen_c07(uint64_t seed, const std::string& tier, Rng& r)
     s.cfg.mon_c07 = true;
     s.cfg.monitor_rate = 8;
     s.cfg.node_cap = 30000;
+    if (mix64(seed, 0x7106C) % 12 == 0)
+    {
+        // very long games: the engine's game history grows on demand (08c0d27), so "any length" has no bound of its own.
+        // Games that cross the growth points of that table (800, 1600, 3200 entries), checked ply by ply around the
+        // crossing and searched just before it, with an irreversible move now and then so that the positions near the
+        // end have their earlier occurrences in the most recently filled part only.  Own stream (see C04 above).
+        Rng lr(mix64(seed, 0x10A6));
+        PosSpec p;
+        p.game = ref::Game(ref::Board());
+        static const int bounds[] = {800, 1600, 1600, 3200};
+        int B = bounds[lr.below(4)];
+        int total = B + int(lr.range(3, 30));
+        int next_irrev = int(lr.range(40, 140));
+        int first_check = B - int(lr.range(2, 8));
+        bool searched = false;
+        s.cfg.node_cap = 20000;
+        while (int(p.game.moves.size()) < total)
+        {
+            auto ms = p.game.cur.legal();
+            if (ms.empty()) break;
+            std::vector<ref::RMove> quiet, pawn, capt;
+            for (auto& m : ms)
+            {
+                if (p.game.cur.is_capture(m)) capt.push_back(m);
+                else if (ref::kind_of(p.game.cur.sq[m.from]) == ref::KIND_P) { if (!m.promo) pawn.push_back(m); }
+                else quiet.push_back(m);
+            }
+            ref::RMove pick = ms[lr.below(ms.size())];
+            if (p.game.cur.halfmove >= next_irrev && (!pawn.empty() || !capt.empty()))
+            {
+                pick = !pawn.empty() ? pawn[lr.below(pawn.size())] : capt[lr.below(capt.size())];
+                next_irrev = int(lr.range(40, 140));
+            }
+            else if (!quiet.empty())
+            {
+                pick = quiet[lr.below(quiet.size())];
+                if (p.game.moves.size() >= 2 && lr.chance(0.8))
+                {
+                    ref::RMove back = p.game.moves[p.game.moves.size() - 2];
+                    std::swap(back.from, back.to);
+                    for (auto& m : quiet)
+                        if (m == back) pick = m;
+                }
+            }
+            // never into mate or stalemate
+            bool ok = false;
+            for (size_t tries = 0; tries <= ms.size() && !ok; ++tries)
+            {
+                ref::Undo u = p.game.cur.make(pick);
+                ok = !p.game.cur.legal().empty();
+                p.game.cur.unmake(pick, u);
+                if (!ok) pick = ms[tries % ms.size()];
+            }
+            if (!ok) break;
+            p.game.push(pick);
+            if (p.game.cur.halfmove > 150) break;
+            int n = int(p.game.moves.size());
+            if (n >= first_check || lr.chance(0.004))
+            {
+                s.ops.push_back(send(p.command()));
+                s.ops.push_back(simple(OP_AWAIT_IDLE));
+                s.ops.push_back(simple(OP_CHECK, "c07"));
+                if (!searched && n >= first_check && n < B && lr.chance(0.5))
+                {
+                    g.pos = p;
+                    s.ops.push_back(send("go depth " + std::to_string(lr.range(2, 5))));
+                    s.ops.push_back(simple(OP_AWAIT_BEST));
+                    searched = true;
+                }
+            }
+        }
+        if (s.ops.empty())
+        {
+            s.ops.push_back(send(p.command()));
+            s.ops.push_back(simple(OP_AWAIT_IDLE));
+            s.ops.push_back(simple(OP_CHECK, "c07"));
+        }
+        return s;
+    }
     // a long game, checked along the way; shuffling phases to reach repetitions and high clocks
     PosSpec p;
     uint64_t src = r.below(13);
